@@ -3,6 +3,7 @@ package k
 import (
 	"fmt"
 	"os"
+	"regexp"
 	"runtime"
 	"runtime/debug"
 	"sort"
@@ -271,11 +272,15 @@ func (p *Proc) trap() {
 		select {}
 	}
 	if p.Fd2 != nil {
-		p.Fd2.writeRaw([]byte(fmt.Sprintf("panic: %v\n\ngoroutine 1 [running]:\n%s\n", r, firstLines(stack, 12))))
+		// (pointer values differ from process to process - the heap base is
+		// randomised - and must not reach the byte stream the run observes)
+		p.Fd2.writeRaw([]byte(fmt.Sprintf("panic: %v\n\ngoroutine 1 [running]:\n%s\n", hexRE.ReplaceAllString(fmt.Sprint(r), "0x?"), hexRE.ReplaceAllString(firstLines(stack, 12), "0x?"))))
 	}
 	p.Crash(2, fmt.Sprintf("panic: %v", r))
 	select {}
 }
+
+var hexRE = regexp.MustCompile(`0x[0-9a-f]+`)
 
 type exitPanic struct{}
 
